@@ -13,37 +13,50 @@ LEAN_MODULES = ["FimVerif.Proofs.C20"]
 P = "FimVerif.C20."
 THEOREMS = [P + t for t in (
     "balanced_sound", "released_exactly_once", "never_released_unheld",
-    "methods_balanced", "others_lock_neutral", "store_methods_release_exactly_once",
+    "methods_balanced", "others_lock_neutral", "store_methods_release_exactly_once", "store_methods_release_exactly_once_inst",
     "disciplined_sound", "methods_disciplined", "helpers_disciplined", "store_method_paths_accepted",
     "accepts_append",
-    "mutual_exclusion", "unique_ids", "no_node_lost", "each_graph_exact", "lock_free_at_end", "no_deadlock",
-    "no_release_error", "store_never_replaced", "singleton_guard_stable", "store_threads_safe", "weak_guard_counterexample",
-    "unlocked_alloc_counterexample", "double_release_counterexample")]
+    "mutual_exclusion", "unique_ids", "no_node_lost", "each_graph_exact", "each_graph_exact_with_deletes", "ledger_after_delete",
+    "lock_free_at_end", "no_deadlock",
+    "no_release_error", "store_never_replaced", "singleton_guard_stable", "store_threads_safe",
+    "atoms_accepted", "store_threads_safe_atomwise",
+    "weak_guard_counterexample", "unlocked_alloc_counterexample", "double_release_counterexample", "split_increment_counterexample",
+    "reinit_counterexample")]
 TRUSTED_BASE = [
-    "gen/lockcfg.py: AST -> Stmt translation of both storage classes; the ACCESS table (which statement is which access to "
-    "start_id / graph_node_ids / graphs) and its no-raise whitelist W1-W6: GraphID equality search over the store, "
-    "Graph.remove_nodes_from / Graph.clear / dict.clear, defaultdict.__getitem__, integer increment/assignment of an id counter, "
-    "the insertion step of Graph.add_node, filling a fresh per-graph store entry from the views of the freshly relabelled temp_graph",
+    "gen/lockcfg.py: AST -> Stmt translation of both storage classes after normalisation N1-N5 (with-statement = acquire/try/"
+    "finally/release, re-raise-only handlers dropped, calls of methods of the same class expanded in place, locals renamed by what "
+    "they hold, aliases of the store entry resolved, conditions classified by what they read); the ACCESS table (which normalised "
+    "statement is which access to start_id / graph_node_ids / graphs) and its no-raise whitelist W1-W6: GraphID equality search over "
+    "the store, Graph.remove_nodes_from / Graph.clear / dict.clear, storing an object under an id that was already looked up, integer "
+    "increment/assignment of an id counter, the insertion step of Graph.add_node, filling a fresh per-graph store entry from the views "
+    "of the freshly relabelled temp_graph.  The ACCESS rows are tested against behaviour on every run: the micro-instructions each "
+    "call performs are observed by probes on the store's shared state and must form a path of the generated skeleton",
     "singleton protocol: the translator recognises the shells' creation idiom (guard `not X.storage_instance` / `is None`, "
-    "no other assignment to storage_instance / self.lock, no re-run of __init__, __len__/__bool__ on the store classes); the model "
-    "starts with the store in existence (first creation by two threads at once, with no store yet, is not part of the quantifier); "
-    "what happens after a replacement is modelled only as a new generation number",
+    "no other assignment to storage_instance, __len__/__bool__ on the store classes); a method that re-runs __init__ or assigns "
+    "self.lock is translated (micro `reinit`) and rejected by the discipline monitor; the model starts with the store in existence "
+    "(first creation by two threads at once, with no store yet, is not part of the quantifier); what happens after a replacement is "
+    "modelled only as a new generation number and a free lock",
     "threading.Lock modelled as: acquire blocks while held, release by any thread frees it, release of a free lock is an error",
-    "preemption only between source lines of the store classes: preemption inside a line (bytecode level) and the GIL's "
-    "atomicity of dict/Graph operations are NOT modelled; the property-graph layer's unlocked structural edits "
-    "(add_link, delete_node through get_graph()) running concurrently with a store scan are outside the model",
-    "harness/lib_sched.py: sys.settrace line scheduler, instrumented lock substituted for storage.lock, event -> micro-instruction "
-    "mapping via the generated line table; the observed trace of every call is checked to be a path of the generated skeleton",
-    "symbol instantiation: a generated skeleton uses symbolic counter/graph/size codes; a replayed program instantiates them "
-    "with the operation's graph index and node count",
+    "atomicity: one atom = one attribute load/store or one dictionary primitive (lookup, insertion or deletion of one key, clear) of "
+    "CPython under the GIL (Proofs/Lemmas/C20Fine.lean `FineM` says which atoms each micro-instruction consists of; the theorems hold "
+    "with a thread switch between any two atoms).  NOT modelled: the free-threaded build (no GIL), and what a reader sees that scans "
+    "a dictionary while another thread inserts (reads have no effect in the model; the oracle explores such scans, see the known "
+    "finding); the property-graph layer's unlocked structural edits (add_link, delete_node through get_graph())",
+    "harness/lib_sched.py: sys.settrace line scheduler (thread switches between source lines of the store classes and between the "
+    "elements of an unlocked scan of a node dictionary), instrumented lock substituted for storage.lock, probes substituted for the "
+    "store's graphs / start_id / graph_node_ids, folding of the observed atoms of one line into micro-instructions (Recorder.fold)",
+    "symbol instantiation: a generated skeleton uses symbolic counter/graph/size codes; Lock.instStmt instantiates them with the "
+    "operation's graph index and node count.  The lock theorems are proved for every instantiation (balanced_inst); the discipline "
+    "monitor is proved on the symbolic skeletons and checked (`accepts`) on every observed concrete program",
 ]
-ASSUMPTIONS = ["graph ids are strings (hashable); an unhashable id makes defaultdict lookups raise inside an unprotected region",
-               "imported graphs are networkx graphs whose node/edge views are well-formed",
-               "no KeyboardInterrupt / MemoryError / SystemExit inside a store method"]
-RULE = ("sequential: histories of 4-12 store calls on 1-3 graph ids incl. failing imports, duplicate ids, delete-then-reimport, "
-        "non-trivial = at least one failing call or one call on an already-present id; threaded: 2-3 threads x 1-4 operations "
-        "(imports, node creation through the API, deletes, reads), every line of the store a preemption point, non-trivial = "
-        "at least one preemption; distinct by canonical (flavour, ops, decisions)")
+ASSUMPTIONS = ["imported graphs are networkx graphs whose node/edge views are well-formed",
+               "no KeyboardInterrupt / MemoryError / SystemExit inside a store method",
+               "CPython with the GIL"]
+RULE = ("sequential: histories of 4-12 store calls on 1-3 graph ids incl. failing imports, calls with an unhashable graph id, duplicate "
+        "ids, delete-then-reimport, del_all_graphs, non-trivial = at least one failing call or one call on an already-present id; "
+        "threaded: 2-3 threads x 1-4 operations (imports, node creation through the API, deletes of one / all graphs, reads, failing "
+        "calls), every line of the store and every element of an unlocked node scan a preemption point, non-trivial = at least one "
+        "preemption; distinct by canonical (flavour, ops, decisions)")
 
 _REP = None
 
@@ -446,7 +459,25 @@ def correspondence(ctx, res):
                 res.count("explored:%s" % fl)
             runs, done = L.explore(rep(), fl, threads, bound, budget, setup, visit)
             res.count("explore-exhausted" if done else "explore-budget-hit")
+    # (iv) every public method the two store classes have today is in the model's tables, with the same locking kind (a method
+    #      added to a store shows up in the regenerated tables by itself; when the translator fell back to the tables of the
+    #      unchanged tree this is where a new method is noticed)
+    reqs.append(json.dumps(["methods"]))
+    impl.append(None)
+    cases.append({"case": {"kind": "method-tables"}})
     model = drv.run(reqs)
+    mt = json.loads(model.pop())
+    reqs.pop(), impl.pop(), cases.pop()
+    res.evaluations += 1
+    if mt[0] != "ok":
+        res.disagreements.append({"case": {"kind": "method-tables"}, "impl": "method tables", "model": mt})
+    else:
+        tables = {"locking": set(mt[1]["locking"]), "lockfree": set(mt[1]["lockfree"]), "helper": set(mt[1]["helpers"])}
+        for name, kind in sorted(rep()["methods"].items()):
+            res.count("method-kind:" + kind)
+            if name not in tables.get(kind, ()):
+                res.disagreements.append({"case": {"kind": "method-tables", "method": name}, "impl": kind,
+                                          "model": next((k for k, v in tables.items() if name in v), "absent from the model")})
     nacc = 0
     for rq, i, m, c in zip(reqs, impl, model, cases):
         res.evaluations += 1
